@@ -84,8 +84,14 @@ instance (s : Spec.SPos) (m : Spec.SMove) : Decidable (StepOK s m) :=
     ⟨fun ⟨⟨a1, a2, a3, a4, a5, a6, a7⟩, b, c, d, e, f, g⟩ => ⟨a1, a2, a3, a4, a5, a6, a7, b, c, d, e, f, g⟩,
      fun h => ⟨⟨h.len, h.side, h.cast, h.rights, h.src, h.dst, h.ne⟩, h.own, h.target, h.promo, h.pawn, h.ep, h.castle⟩⟩
 
-/-- evaluated by the driver at every state line of the RULES side: every legal move has the shape C02's theorem assumes -/
+/-- the three side conditions of C15_gives_check_ordinary, per legal move: promotions are to N/B/R/Q, the enemy king is not the
+    target, and the kings are not adjacent afterwards (each would follow from deeper facts about legal play; they are evaluated) -/
+def givesCheckHypB (s : Spec.SPos) (m : Spec.SMove) : Bool :=
+  decide (m.promo ≤ 5) && decide (m.promo ≠ 1) && decide (m.dst ≠ Spec.findKing s.board (1 - s.side)) &&
+  !kingNear (Spec.apply s m).board (Spec.findKing s.board (1 - s.side)) s.side
+
+/-- evaluated by the driver at every state line of the RULES side: every legal move has the shape C02's theorem assumes and meets the side conditions of C15_gives_check_ordinary -/
 def specHypothesesHold (s : Spec.SPos) : Bool :=
-  decide (65534 < s.halfmove) || (Spec.legalMoves s).all (fun m => decide (StepOK s m))
+  decide (65534 < s.halfmove) || (Spec.legalMoves s).all (fun m => decide (StepOK s m) && givesCheckHypB s m)
 
 end Chess
